@@ -243,7 +243,11 @@ def run_property(pid, tier, only=None, jobs=None, write_evidence=True, cube_filt
             if kf is None:
               smoke_violations.append((ob.name, path, err))
               print(f'VIOLATION property={pid} replay={path}', flush=True)
-              reported = True
+            else:
+              # a smoke input inside a listed finding: reported as such, neither a violation nor a harness error
+              print(f"KNOWN-FINDING: property={pid} {kf['what']} [id={kf['id']} example={failed[0]!r}]", flush=True)
+              os.remove(path)
+            reported = True
           else:
             os.remove(path)
         if not reported:
